@@ -182,9 +182,28 @@ def gen(rng, knobs):
     obs = [["send", json.dumps(["REQ", "o", {"since": 1}, {"kinds": [0, 1, 2, 3, 4, 5, 6, 7, 8, 256, 9999, 10000, 19999, 30000, 30001, 31494, 39999, 40000, 65535]}])],
            ["barrier"]]
     late = [["barrier"], ["barrier"], ["barrier"], ["send", json.dumps(["REQ", "late", {"since": 1}])]]
+    clients = [{"script": obs}, {"script": script + [["barrier"], ["barrier"]]}, {"script": late}]
+    if rng.random() < 0.4:
+        # a second submitter works at the same time: forgeries that borrow the signature (or the id and the
+        # signature) of an authentic event which the first submitter may be getting validated right then
+        twin = [["barrier"]]
+        for _ in range(rng.randint(2, 6)):
+            e = rng.choice(pool)
+            f = copy.deepcopy(e)
+            f["content"] = f["content"] + " (forged %d)" % rng.randrange(1000)
+            if rng.random() < 0.7:
+                f["id"] = model.canon_id(f)           # its own hash, somebody else's signature
+            twin.append(["send", json.dumps(["EVENT", f])])
+            if rng.random() < 0.3:
+                twin.append(["send", json.dumps(["EVENT", copy.deepcopy(e)])])     # and the genuine one itself
+        clients.append({"script": twin})
+        # the first submitter presents the pool's authentic events more often in such runs
+        for e in rng.sample(pool, 3):
+            script.insert(rng.randint(1, len(script)), ["send", json.dumps(["EVENT", copy.deepcopy(e)])])
+            labels.append("authentic")
+        clients[1] = {"script": script + [["barrier"], ["barrier"]]}
     return {"backend": backend, "validators": validators, "bulk": bulk, "labels": labels,
-            "service": rng.random() < 0.5,
-            "clients": [{"script": obs}, {"script": script + [["barrier"], ["barrier"]]}, {"script": late}]}
+            "service": rng.random() < 0.5, "clients": clients}
 
 
 def sample(case):
@@ -259,11 +278,12 @@ def run(case, sim):
                 acked.add(m[1])
     # OK=true refers to an authentic object: the submitted one with that id must be authentic
     submitted = collections.defaultdict(list)
-    for it in case["clients"][1]["script"]:
-        if it[0] == "send":
-            ev = json.loads(it[1])[1]
-            if isinstance(ev, dict):
-                submitted[str(ev.get("id"))].append(ev)
+    for cl in case["clients"][1:]:
+        for it in cl["script"]:
+            if it[0] == "send":
+                ev = json.loads(it[1])[1]
+                if isinstance(ev, dict):
+                    submitted[str(ev.get("id"))].append(ev)
     for i in acked:
         cands = submitted.get(i, [])
         # judged by what the relay then stores / emits under that id (type-coerced submissions)
